@@ -6,7 +6,7 @@ from engine.driver.solve import run_z3
 
 ID = "C46"
 HARNESS = "C46_determinism.cpp"
-EXPLANATION = "A 3-body model is simulated (3 report steps) from SYMBOLIC parameters and initial state, then unrelated work runs in the same process (another model with two other integrators, contact-geometry queries, random generators, a polynomial root finder), then the same model is rebuilt and simulated again. The expression DAG of every reported q, u, t and the final energy of both runs is exported with every IEEE operation UNINTERPRETED (QF_UF: fadd, fmul, fdiv, sqrt, sin, ... as free function symbols, inputs as constants) and z3 decides o1 = o2 by congruence closure: equality there means the same operations on the same operands in the same order, i.e. bit-identical results for every concrete input that follows this path; the second run must also take no decision that the first one did not take. A hidden static that leaks a number into the second run appears as a differing leaf; the native (uninstrumented-semantics) run of the same binary compares the two runs bitwise."
+EXPLANATION = "A 3-body model is simulated (3 report steps) from SYMBOLIC parameters and initial state, then unrelated work runs in the same process (another model with two other integrators, contact-geometry queries including a second smooth height map evaluated in the same patch as the simulation's own height-map queries, random generators, a polynomial root finder), then the same model is rebuilt and simulated again. The expression DAG of every reported q, u, t and the final energy of both runs is exported with every IEEE operation UNINTERPRETED (QF_UF: fadd, fmul, fdiv, sqrt, sin, ... as free function symbols, inputs as constants) and z3 decides o1 = o2 by congruence closure: equality there means the same operations on the same operands in the same order, i.e. bit-identical results for every concrete input that follows this path; the second run must also take no decision that the first one did not take. A hidden static that leaks a number into the second run appears as a differing leaf; the native (uninstrumented-semantics) run of the same binary compares the two runs bitwise."
 BOUNDS = "7 integrators quick (+CPodes thorough) x 2 model variants (quaternion Ball / Gimbal); one concolic path per base point (2 quick / 6 thorough base points); single-threaded force evaluation; 3 reported steps"
 NOT_COVERED = "other paths than the executed ones; multi-threaded force evaluation; isolation from library calls not in the 'unrelated work' catalogue; long simulations"
 TECHNIQUE = "instrumented symbolic execution -> DAG exported as QF_UF terms (every FP operation uninterpreted) -> z3 congruence closure decides run1 = run2; native bitwise comparison as replay"
